@@ -24,16 +24,16 @@ import (
 
 // equivalent spellings of one atom
 var atomAliases = map[string]string{
-	"Vector.IsFixed()":                          "Vector.Length != nil",
-	"Array.Dimensions != nil":                   "Array.HasKnownNumberOfDimensions()",
-	"GeneralizedType.Cases.HasNullOption()":     "GeneralizedType.Cases.IsOptional()", // only asked after IsSingle / for non-unions in the plan rows
-	"len(GeneralizedType.Cases) == 1":           "GeneralizedType.Cases.IsSingle()",
-	"GeneralizedType.Dimensionality != nil":     "type(GeneralizedType.Dimensionality)!=nil",
-	"EnumDefinition.BaseType != nil":            "EnumDefinition.BaseType != nil",
-	"len(RecordDefinition.TypeParameters) > 0":  "generic",
-	"len(RecordDefinition.TypeArguments) > 0":   "generic",
-	"len(DefinitionMeta.TypeParameters) > 0":    "generic",
-	"len(NamedType.TypeParameters) > 0":         "generic",
+	"Vector.IsFixed()":                                           "Vector.Length != nil",
+	"Array.Dimensions != nil":                                    "Array.HasKnownNumberOfDimensions()",
+	"GeneralizedType.Cases.HasNullOption()":                      "GeneralizedType.Cases.IsOptional()", // only asked after IsSingle / for non-unions in the plan rows
+	"len(GeneralizedType.Cases) == 1":                            "GeneralizedType.Cases.IsSingle()",
+	"GeneralizedType.Dimensionality != nil":                      "type(GeneralizedType.Dimensionality)!=nil",
+	"EnumDefinition.BaseType != nil":                             "EnumDefinition.BaseType != nil",
+	"len(RecordDefinition.TypeParameters) > 0":                   "generic",
+	"len(RecordDefinition.TypeArguments) > 0":                    "generic",
+	"len(DefinitionMeta.TypeParameters) > 0":                     "generic",
+	"len(NamedType.TypeParameters) > 0":                          "generic",
 	"len(TypeDefinition.GetDefinitionMeta().TypeParameters) > 0": "generic",
 }
 
